@@ -328,3 +328,19 @@ def run(ck):
                       "set by the text parser (init)" if ok_ else
                       "%s overwrites what Address::init parsed from the text: a port or host that the text itself carries is accepted and then "
                       "silently replaced instead of being rejected" % prog.owner(fn_).base.replace(P, ""))
+
+    # binary-to-text: the text of an address family is produced by inet_ntop on every path of its arm of IP::toString (a hand-written
+    # formatter is a second implementation of the presentation format: signed octets, zero compression, ...)
+    its = lib.single(prog, P + "IP::toString")
+    is_ntop = lambda e: e["k"] == "call" and (e.get("callee") or "") == "inet_ntop"
+    summ_n = lib.Summaries(prog).lift_must(is_ntop, "inet_ntop")
+    fam_edges = lib.relation_edges(its, lambda r_: (r_.get("f") or "").endswith("IP::family") or (r_.get("t") or "").strip() in ("family", "this->family"),
+                                   lambda r_: re.sub(r"[\s()]", "", r_.get("t") or "") in ("AF_INET", "AF_INET6", "2", "10"), ("==",))
+    ck.require(fam_edges, "family tests not found in IP::toString")
+    for bid_, k_ in fam_edges:
+        arm_ = its.blocks[bid_].succs[k_]
+        loose_ = [x for x in cfg.exits_without(its, summ_n, start_block=arm_) if x.kind != "throw"]
+        ck.ob("C19-R3", "IP::toString/%s-by-inet_ntop" % re.sub(r"\s+", "", (its.blocks[bid_].term or {}).get("cond") or "family"), not loose_,
+              "%s:%s" % (its.file, (its.blocks[bid_].term or {}).get("l")), its,
+              "the arm's text comes from inet_ntop" if not loose_ else
+              "this arm of IP::toString produces the text without inet_ntop: a second, hand-written rendering of the address")
